@@ -493,6 +493,12 @@ func (m *memRig) accept() bool {
 	}
 	m.jumpTo(13+m.rng.IntN(7), 12*time.Hour+time.Minute-time.Duration(m.now()-id.since))
 	ts := m.now()
+	if m.r.plan.P("future_accept", 0) == 1 && m.rng.Chance(0.5) {
+		// the pledging node's clock runs ahead: its acceptance is stamped up to a minute in the future of
+		// everybody else's clock (round zero of a pledging chain is allowed that much)
+		ts += uint64(31*time.Second) + uint64(m.rng.Int64N(int64(27*time.Second)))
+		m.r.fault("clock.acceptance_stamped_in_the_future", m.c.Q.Now)
+	}
 	it, err := m.acceptSnapshot(id, ts)
 	if err != nil {
 		m.r.out.Probes["accept_build_failed"]++
